@@ -2,7 +2,7 @@
    TopologyException - whichever interface of the list is the rejected one - the graph is what it was. *)
 From Coq Require Import List NArith Bool Lia.
 From FIM Require Import Base.Str Gen.T9Names Model.T9Graph Model.T9Ops Proofs.T9Monad Proofs.T9Simple Proofs.T9Ext
-     Proofs.T9Peers Proofs.T9Rollback Proofs.T9Connect.
+     Proofs.T9Peers Proofs.T9Rollback Proofs.T9Connect Proofs.T9CompFresh.
 Import ListNotations.
 Open Scope N_scope.
 
@@ -171,6 +171,32 @@ Proof.
   - inversion H; subst. eapply (op_add_node_atomic fl name node_id (Some tSwitch) None s s' e); auto.
 Qed.
 
+(* peer: atomic when it is the first of its three steps (the port on the calling service) that is refused *)
+Lemma peer_first_step fl a b pure s s' e :
+  op_peer fl a b pure s = (s', Err e) ->
+  (forall an bn ca s1 id, node_name (sg s) a = Ok an -> node_name (sg s) b = Ok bn ->
+       service_iface_names (sg s) a = Ok ca ->
+       add_interface_cached fl a ca (an ++ dash ++ bn) None (Some tServicePort) pure s <> (s1, Ok id)) ->
+  sg s' = sg s.
+Proof.
+  intros H Hno. unfold op_peer in H.
+  apply bind_err_cases in H as [H|(s1 & an & H1 & H)]; [exact (no_mut_ask _ _ _ _ H)|].
+  apply ask_ok in H1 as [-> Han].
+  apply bind_err_cases in H as [H|(s1 & bn & H1 & H)]; [exact (no_mut_ask _ _ _ _ H)|].
+  apply ask_ok in H1 as [-> Hbn].
+  apply bind_err_cases in H as [H|(s1 & ca & H1 & H)]; [exact (no_mut_ask _ _ _ _ H)|].
+  apply ask_ok in H1 as [-> Hca].
+  apply bind_err_cases in H as [H|(s1 & cb & H1 & H)]; [exact (no_mut_ask _ _ _ _ H)|].
+  apply ask_ok in H1 as [-> Hcb].
+  apply bind_err_cases in H as [H|(s1 & i1 & H1 & H)].
+  - unfold add_interface_cached in H.
+    apply bind_err_cases in H as [H|(s1 & u & H1 & H)]; [exact (no_mut_guard _ _ _ _ _ H)|].
+    apply guard_ok in H1 as [-> _].
+    refine (new_interface_atomic fl _ None a (Some tServicePort) pure s s' e _ H).
+    apply (service_iface_names_found _ _ _ Hca).
+  - exfalso. eapply (Hno an bn ca); eauto.
+Qed.
+
 (* ---------------------------------------------------------------- non-vacuity instances *)
 From Coq Require Import String.
 From FIM Require Import Proofs.T9Refuted.
@@ -234,4 +260,9 @@ Proof. reflexivity. Qed.
 Lemma ex_switch_ok :
   let r := op_add_switch Experiment (S "sw1") None 0 [] tVLAN None 2 None (mkSt g_two_nodes supply) in
   snd r = Ok 50 /\ List.length (gnodes (sg (fst r))) = 13%nat.
+Proof. vm_compute. auto. Qed.
+
+Lemma ex_peer_ok :
+  let r := op_peer Experiment 30 31 None (mkSt (mkGraph (firstn 2 (gnodes g_two_services)) []) supply) in
+  snd r = Ok tt /\ List.length (gnodes (sg (fst r))) = 5%nat /\ List.length (gedges (sg (fst r))) = 4%nat.
 Proof. vm_compute. auto. Qed.
